@@ -78,6 +78,132 @@ func (g *gen) parseOpts() ParseOpts {
 	}
 }
 
+// stratified draws one object with every structural dimension sampled
+// uniformly over its classes: kind family, size class, provenance, index
+// configuration, hole class, child-count class.
+func (g *gen) stratified() Recipe {
+	kind := g.r.PickS("Polygon", "Polygon", "LineString", "MultiPolygon", "MultiPoint", "MultiLineString", "FeatureCollection", "GeometryCollection", "Feature", "Feature", "Circle")
+	return g.stratifiedOf(kind)
+}
+
+func (g *gen) stratifiedOf(kind string) Recipe {
+	r := g.r
+	rc := Recipe{Kind: kind, Via: r.PickS("parse", "ctor"), Opts: g.parseOpts()}
+	rc.Opts.RequireValid = false
+	rc.Opts.IndexGeometryKind = r.Pick(0, 1, 2)
+	rc.Opts.IndexGeometry = r.Pick(0, 1, 64)
+	rc.Opts.IndexChildren = r.Pick(0, 1, 64)
+	sizeClass := func() int {
+		switch r.Intn(8) {
+		case 0, 1, 2:
+			return r.Pick(4, 6, 12, 30)
+		case 3, 4, 5:
+			return r.Pick(63, 64, 65, 100)
+		}
+		if g.tp.maxTasks >= 6 {
+			return r.Pick(300, 1030, 2000, 5000)
+		}
+		return r.Pick(200, 300, 1030)
+	}
+	childClass := func() int {
+		switch r.Intn(10) {
+		case 0, 1, 2:
+			return r.Pick(1, 2, 5)
+		case 3, 4, 5:
+			return r.Pick(16, 40, 63)
+		case 6, 7, 8:
+			return r.Pick(64, 70, 130)
+		}
+		if g.tp.maxTasks >= 6 {
+			return r.Pick(1024, 4100, 5000)
+		}
+		return r.Pick(300, 1100, 4100)
+	}
+	geomShape := func(small bool) Shape {
+		sh := g.shape(small)
+		if !small {
+			sh.N = sizeClass()
+		}
+		sh.Holes = 0
+		return sh
+	}
+	switch kind {
+	case "Polygon":
+		rc.Shape = geomShape(false)
+		rc.Shape.Holes = r.Pick(0, 1, 2, 9, 64, 100)
+		rc.Via = r.PickS("parse", "ctor", "move", "literal")
+		if rc.Via == "move" || rc.Via == "literal" {
+			rc.Shape.Meters = r.Coord(-3, 3)
+			rc.Shape.Steps = r.Range(-20, 20)
+		}
+	case "LineString":
+		rc.Shape = geomShape(false)
+		rc.Shape.Jag = 0.5
+		rc.Via = r.PickS("parse", "ctor", "move")
+		if rc.Via == "move" {
+			rc.Shape.Meters = r.Coord(-3, 3)
+			rc.Shape.Steps = r.Range(-20, 20)
+		}
+	case "Circle":
+		rc = g.recipe("Circle", 0, false)
+		rc.Shape.Steps = r.Pick(3, 8, 12, 64)
+		if rc.Shape.Meters == 0 {
+			rc.Shape.Meters = 50000
+		}
+	case "MultiPoint":
+		rc.Shape = geomShape(true)
+		rc.Shape.R = r.Coord(2, 15)
+		rc.Shape.N = childClass()
+	case "MultiPolygon", "MultiLineString":
+		rc.Shape = geomShape(true)
+		n := childClass()
+		ck := "Polygon"
+		if kind == "MultiLineString" {
+			ck = "LineString"
+		}
+		for i := 0; i < n; i++ {
+			ch := Recipe{Kind: ck, Via: "parse", Opts: rc.Opts, Shape: geomShape(n > 8 || r.Chance(0.5))}
+			if n <= 8 && r.Chance(0.3) {
+				ch.Shape.Holes = r.Pick(1, 2)
+			}
+			rc.Children = append(rc.Children, ch)
+		}
+	case "FeatureCollection", "GeometryCollection":
+		rc.Shape = geomShape(true)
+		n := childClass()
+		for i := 0; i < n; i++ {
+			ck := geomKinds[r.Intn(len(geomKinds))]
+			if kind == "FeatureCollection" && r.Chance(0.7) {
+				ck = "Feature"
+			}
+			ch := g.recipe(ck, 1, true)
+			ch.Opts = rc.Opts
+			rc.Children = append(rc.Children, ch)
+		}
+	case "Feature":
+		inner := r.PickS("MultiPolygon", "MultiPoint", "MultiLineString", "GeometryCollection", "Polygon", "LineString")
+		sub := g.stratifiedKind(inner, rc.Opts)
+		rc.Shape = sub.Shape
+		rc.Children = []Recipe{sub}
+		rc.Members = featureMembers[r.Intn(len(featureMembers))]
+	}
+	if rc.Via == "parse" {
+		propagateOpts(&rc)
+	}
+	return rc
+}
+
+// stratifiedKind is stratifiedOf for the geometry wrapped by a stratified Feature.
+func (g *gen) stratifiedKind(kind string, opts ParseOpts) Recipe {
+	rc := g.stratifiedOf(kind)
+	rc.Opts = opts
+	if rc.Via == "move" || rc.Via == "literal" {
+		rc.Via = "ctor"
+	}
+	propagateOpts(&rc)
+	return rc
+}
+
 // manyChildren draws the size of a "big" collection: mostly just above the
 // library's default index threshold (64), rarely far above it, so that sizes
 // straddle other plausible thresholds (powers of two up to 4096).
@@ -549,6 +675,27 @@ func genSpec(seed uint64, worker, run int, tier string) (*Spec, *Rng, faultSet) 
 	hot := []int{r.Intn(n)}
 	if r.Chance(0.5) {
 		hot = append(hot, r.Intn(n))
+	}
+	if r.Chance(0.3) {
+		// STRATIFIED hot object: the natural distribution makes conjunctions of
+		// rare structural features (many holes AND built from parts AND large)
+		// vanishingly rare; here every class of every dimension is equally likely.
+		s.Pool = append(s.Pool, g.stratified())
+		n = len(s.Pool)
+		hot[0] = n - 1
+		if r.Chance(0.35) {
+			sib := *cloneRecipe(&s.Pool[n-1])
+			if sib.Kind == "Circle" {
+				sib.Via = "ctor"
+				sib.Shape.Steps = r.Pick(3, 4, 8, 12, 32)
+			} else if r.Chance(0.6) {
+				shiftRecipe(&sib, float64(r.Range(-2, 2)), float64(r.Range(-2, 2)))
+			}
+			s.Pool = append(s.Pool, sib)
+			n = len(s.Pool)
+			s.Siblings = true
+			hot = append(hot[:1], n-1)
+		}
 	}
 	fs := faultSet{cancel: r.Chance(0.5), cbpanic: r.Chance(0.5), goexit: r.Chance(0.5), reenter: r.Chance(0.5), gc: r.Chance(0.5)}
 	nt := 2
